@@ -76,10 +76,19 @@ def gen_cases(rng, tier):
         D = dict(DIALECTS[i % len(DIALECTS)])
         gtf = D["fmt"] == "gtf"
         m = gen_mapping(rng, gtf and rng.random() < 0.9)
-        D["order"] = [k for k, _ in m] if rng.random() < 0.5 else []
+        r = rng.random()
+        if r < 0.4:
+            D["order"] = [k for k, _ in m]
+        elif r < 0.7:
+            D["order"] = []
+        else:
+            # only some of the keys are listed, in an order of their own (and a key the mapping does not have)
+            ks = [k for k, _ in m]
+            rng.shuffle(ks)
+            D["order"] = ks[:rng.randrange(0, len(ks) + 1)] + (["zz_absent"] if rng.random() < 0.3 else [])
         extras = [rng.choice(["x", "", "a b", "1;2", "é"]) for _ in range(rng.choice([0, 0, 0, 1, 2]))]
         cases.append({"k": "round", "D": D, "cols": [G.gen_col(rng) for _ in range(6)], "s": G.gen_coord(rng),
-                      "e": G.gen_coord(rng), "m": m, "extras": extras, "toggle": i % 50 == 7})
+                      "e": G.gen_coord(rng), "m": m, "extras": extras, "toggle": i % 50 == 7, "ko": i % 3 == 1})
     # totality
     maxlen = 4 if tier == "quick" else 5
     strings = [""]
@@ -148,12 +157,13 @@ def run_impl(c):
             conv = lambda v: "." if v is None else v
             col = c["cols"]
             f = Feature(seqid=col[0], source=col[1], featuretype=col[2], start=conv(c["s"]), end=conv(c["e"]),
-                        score=col[3], strand=col[4], frame=col[5], attributes=a, extra=list(c["extras"]), dialect=D)
+                        score=col[3], strand=col[4], frame=col[5], attributes=a, extra=list(c["extras"]), dialect=D,
+                        keep_order=bool(c.get("ko")))
             line = str(f)
         except Exception as ex:
             return {"line": ["err", L.err_class(ex)], "re": ["err", "Other"]}
         try:
-            g = feature_from_line(line, dialect=D)
+            g = feature_from_line(line, dialect=D, keep_order=bool(c.get("ko")))
             o = G.feature_obs(g)
             re_ = ["ok", o] if G.obs_ok(o) else ["err", "Other"]
         except Exception as ex:
@@ -215,9 +225,9 @@ def coq_case(c, o):
     oz = lambda v: L.opt(v, L.z, "Z")
     if c["k"] == "round":
         col = c["cols"]
-        return "CRound %s %s %s %s %s %s %s %s %s %s %s %s %s" % (
+        return "CRound %s %s %s %s %s %s %s %s %s %s %s %s %s %s" % (
             G.coq_dialect(c["D"]), L.s(col[0]), L.s(col[1]), L.s(col[2]), oz(c["s"]), oz(c["e"]), L.s(col[3]),
-            L.s(col[4]), L.s(col[5]), G.coq_attrs(c["m"]), L.ss(c["extras"]), L.res(o["line"], L.s),
+            L.s(col[4]), L.s(col[5]), G.coq_attrs(c["m"]), L.ss(c["extras"]), L.b(bool(c.get("ko"))), L.res(o["line"], L.s),
             L.res(o["re"], G.coq_fobs))
     if c["k"] == "screen":
         # a raising input found by the Python-side screen is handed to Coq as a failing CInfer/CWith case
